@@ -113,12 +113,23 @@ func (p *Path) Decide(c *Term) bool {
 		}
 		return d.Val == 1
 	}
+	// the same condition (or its negation) was already decided on this path: no solver call
+	if p.sess.Implied(c) {
+		p.trail = append(p.trail, decision{'b', 1, true})
+		p.pos++
+		return true
+	}
+	if p.sess.Implied(Not(c)) {
+		p.trail = append(p.trail, decision{'b', 0, true})
+		p.pos++
+		return false
+	}
 	p.sess.where = p.where()
-	rt, _ := p.sess.Check(c, nil)
+	rt := p.sess.CheckBranch(c)
 	var rf SatResult
 	if rt == Unsat {
 		// pc ∧ c unsat: only the false side can be feasible
-		rf, _ = p.sess.Check(Not(c), nil)
+		rf = p.sess.CheckBranch(Not(c))
 		if rf == Unsat {
 			panic(pathEnd{"infeasible"})
 		}
@@ -126,7 +137,7 @@ func (p *Path) Decide(c *Term) bool {
 		p.pos++
 		return false
 	}
-	rf, _ = p.sess.Check(Not(c), nil)
+	rf = p.sess.CheckBranch(Not(c))
 	if rf == Unsat {
 		p.trail = append(p.trail, decision{'b', 1, true})
 		p.pos++
